@@ -639,7 +639,8 @@ func get(ctx *cli.Context) (*Config, error) {
 			BindPassword:      ctx.String("ldap.bind_password"),
 			UsernameAttribute: ctx.String("ldap.username_attribute"),
 			GroupsQuery:       ctx.String("ldap.groups_query"),
-			CacheTime:         ctx.Duration("ldap.cache_time"),
+			// A number of seconds (as in the YAML config), not a duration string.
+			CacheTime: time.Duration(ctx.Int("ldap.cache_time")),
 		}
 	}
 
